@@ -299,6 +299,8 @@ impl Updater {
 
         let (worker_tx, worker_rx) = crossbeam_channel::bounded(num_workers);
 
+        #[cfg(feature = "verif")]
+        crate::verif::sched::expect_subs(num_workers);
         for write_pass in worker_passes.into_iter() {
             let command = UpdateCommand {
                 shared: shared.clone(),
